@@ -105,7 +105,8 @@ def first_include_file(ph: str):
     """(name, contents) of the harmless file a section may start by including: in [conf] a status that the case's own
     `status = ...` (which follows the directive) replaces, elsewhere the definition of a symbol nobody uses."""
     if ph == 'conf':
-        return 'pre-conf.xly', 'status = PASS\n'
+        # (SKIP, of all: a status that is set again is simply the last one set - nothing is decided before [conf] is over)
+        return 'pre-conf.xly', 'status = SKIP\n'
     return 'pre-%s.xly' % ph, 'def string PRE_%s = "defined in a file that the section starts by including"\n' \
         % ph.replace('-', '_').upper()
 
